@@ -268,7 +268,85 @@ theorem ctrServeAll_prefix (key : Bytes) : ∀ (bufs : List Bytes) (g : Spec.G) 
     rw [ih]
     simp only [Spec.ctrServe]
     split
-    · simp
-    · simp [List.append_assoc]
+    · simp only [← List.append_assoc, List.take_append_drop, List.append_nil]
+    · simp only [← List.append_assoc, List.take_append_drop]
+      simp only [List.append_assoc, List.take_append_drop]
+
+
+/-! ## brng HMAC -/
+
+structure HmacGenSt.Inv (key : Bytes) (st : HmacGenSt) : Prop where
+  block : st.block.length = 32
+  res : st.reserved < 32
+  key : st.keySt = Belt.hmacStart key
+
+def HmacGenSt.tail (st : HmacGenSt) : Bytes := st.block.drop (32 - st.reserved)
+
+/-- one block: the code reuses the incremental HMAC state (`StepA(r); StepG → r'; StepA(iv); StepG → Y`),
+which is `r' = hmac(K, r)`, `Y = hmac(K, r ‖ iv)` -/
+theorem hmacGenNext_spec (key : Bytes) (st : HmacGenSt) (hk : st.keySt = Belt.hmacStart key) :
+    hmacGenNext st = ({ st with r := (Spec.hmacStep key st.iv st.r).1 }, (Spec.hmacStep key st.iv st.r).2) := by
+  simp only [hmacGenNext, Spec.hmacStep, hk, Belt.hmac]
+  rw [Belt.hmacStepA_append _ (Belt.hmacStart_WF key)]
+
+theorem hmacGenFull_spec (key : Bytes) : ∀ (n : Nat) (st : HmacGenSt), st.keySt = Belt.hmacStart key →
+    hmacGenFull st n = ({ st with r := (Spec.hmacGenN key st.iv n st.r).1 }, (Spec.hmacGenN key st.iv n st.r).2) ∧
+      (Spec.hmacGenN key st.iv n st.r).2.length = 32 * n := by
+  intro n
+  induction n with
+  | zero => intro st _; exact ⟨rfl, rfl⟩
+  | succ n ih =>
+    intro st hk
+    obtain ⟨i1, i2⟩ := ih { st with r := (Spec.hmacStep key st.iv st.r).1 } hk
+    refine ⟨?_, ?_⟩
+    · simp only [hmacGenFull, hmacGenNext_spec key st hk, Spec.hmacGenN, i1]
+    · simp only [Spec.hmacGenN]
+      rw [List.length_append, i2]
+      simp only [Spec.hmacStep, Belt.hmac_length]; omega
+
+theorem hmacGenN_snoc (key iv : Bytes) : ∀ (n : Nat) (r : Bytes),
+    Spec.hmacGenN key iv (n + 1) r =
+      ((Spec.hmacStep key iv (Spec.hmacGenN key iv n r).1).1,
+        (Spec.hmacGenN key iv n r).2 ++ (Spec.hmacStep key iv (Spec.hmacGenN key iv n r).1).2) := by
+  intro n
+  induction n with
+  | zero => intro r; simp only [Spec.hmacGenN, List.append_nil, List.nil_append]
+  | succ n ih => intro r; rw [Spec.hmacGenN, ih]; simp only [Spec.hmacGenN, List.append_assoc]
+
+theorem hmacGenGen_spec (key : Bytes) (st : HmacGenSt) (count : Nat) (hi : st.Inv key) (h0 : st.reserved = 0) :
+    (hmacGenGen st count).2 = (Spec.hmacGenN key st.iv ((count + 31) / 32) st.r).2.take count ∧
+      (hmacGenGen st count).1.Inv key ∧ (hmacGenGen st count).1.iv = st.iv ∧
+      (hmacGenGen st count).1.r = (Spec.hmacGenN key st.iv ((count + 31) / 32) st.r).1 ∧
+      (hmacGenGen st count).1.tail = (Spec.hmacGenN key st.iv ((count + 31) / 32) st.r).2.drop count := by
+  obtain ⟨f1, f2⟩ := hmacGenFull_spec key (count / 32) st hi.key
+  generalize hqq : Spec.hmacGenN key st.iv (count / 32) st.r = qq at f1 f2
+  by_cases hrest : count % 32 = 0
+  · have hN : (count + 31) / 32 = count / 32 := by omega
+    have hg : hmacGenGen st count = ({ st with r := qq.1 }, qq.2) := by
+      simp only [hmacGenGen, hrest, ne_eq, not_true_eq_false, if_false, f1]
+    have hq2 : qq.2.length ≤ count := by omega
+    have hb32 : st.block.length ≤ 32 := by rw [hi.block]; exact Nat.le_refl _
+    rw [hg, hN, hqq]
+    refine ⟨(List.take_of_length_le hq2).symm, ⟨hi.block, hi.res, hi.key⟩, rfl, rfl, ?_⟩
+    simp only [HmacGenSt.tail, h0, Nat.sub_zero]
+    rw [List.drop_eq_nil_of_le hb32, List.drop_eq_nil_of_le hq2]
+  · have hN : (count + 31) / 32 = count / 32 + 1 := by omega
+    have hlt : count % 32 < 32 := Nat.mod_lt _ (by decide)
+    have hn := hmacGenNext_spec key { st with r := qq.1 } hi.key
+    rw [hN, hmacGenN_snoc, hqq]
+    have hq1 : (Spec.hmacStep key st.iv qq.1).2.length = 32 := Belt.hmac_length _ _
+    generalize Spec.hmacStep key st.iv qq.1 = q1 at hn hq1
+    have hg : hmacGenGen st count =
+        ({ st with r := q1.1, block := q1.2, reserved := 32 - count % 32 }, qq.2 ++ q1.2.take (count % 32)) := by
+      simp only [hmacGenGen, ne_eq, hrest, not_false_eq_true, if_true, f1, hn]
+    have hq2 : qq.2.length ≤ count := by omega
+    have hc : count - qq.2.length = count % 32 := by omega
+    have hc2 : 32 - (32 - count % 32) = count % 32 := by omega
+    rw [hg]
+    refine ⟨?_, ⟨hq1, by simp only; omega, hi.key⟩, rfl, rfl, ?_⟩
+    · simp only
+      rw [List.take_append, List.take_of_length_le hq2, hc]
+    · simp only [HmacGenSt.tail]
+      rw [List.drop_append, List.drop_eq_nil_of_le hq2, List.nil_append, hc, hc2]
 
 end Bee2V.C03
